@@ -305,6 +305,20 @@ def step (st : St) (ts : List String) : St × String :=
     | some _, "panic" :: rest => ({ st with dead := true }, "reject threadSafeDuplex:concurrent-use panic " ++ " ".intercalate rest)
     | some _, _ => (st, "reject threadSafeDuplex:concurrent-use bad-output " ++ " ".intercalate out)
     | _, _ => (st, "reject bad-op")
+  | ["viewop", o, x] => match parseOp o, st.get x with
+    -- operand = a thread-safe view of the receiver's own set: the result is that of the operation with itself
+    | some op, some p =>
+      if p.wrapped then (st, "reject bad-op") else
+      let label := s!"bitmap{wname p.width}.{opName op}:view-of-receiver-operand"
+      match out with
+      | ["deadlock"] => (st, s!"reject {label} never returns")
+      | "panic" :: rest => ({ st with dead := true }, s!"reject {label}-panic " ++ " ".intercalate rest)
+      | ["ok", c1, r1] =>
+        match judgeObs st x p (Spec.binop op p.ideal p.ideal) label c1 r1 with
+        | (st1, some msg) => (st1, msg)
+        | (st1, none) => (st1, "ok")
+      | _ => (st, s!"reject {label} bad-output " ++ " ".intercalate out)
+    | _, _ => (st, "reject bad-op")
   | [o, x, y] => match parseOp o, st.get x, st.get y with
     | some op, some p, some q =>
       if p.width != q.width then (st, "reject bad-op") else
